@@ -12,7 +12,7 @@ def run(tier, seed):
     res.assumptions = ["parent / prev / next pointers of the real tree are compared with the ones determined by the model's shape "
                        "(dump lines: parent=, pok=, prev=, next=)",
                        "the concurrent-quiescence half is explored under C01/C04 (coherent + lockbits oracles), not proved"]
-    return seq.run_seq_property(res, "c08", CATS, 40, 400, gen_kwargs=GEN)
+    return seq.run_seq_property(res, "c08", CATS, 40, 400, gen_kwargs=GEN, extra_scripts=seq.gen_split_boundary_scripts)
 
 
 def replay(path, tier, seed):
